@@ -21,6 +21,7 @@ THEOREMS = [
     "compaction_output_perm", "compaction_keeps_key_order", "keyLe_totalPreorder", "compaction_keeps_key_order_keyLe",
     "delete_exact", "compaction_invisible", "vacuum_invisible", "history_exact",
     "deleted_never_reappears", "survivor_never_lost",
+    "history_refines_spec", "statement_outcome_exact",
 ]
 WEIGHTS = {"insert": 36, "delete": 26, "compact": 16, "vacuum": 5, "reopen": 9, "create": 8, "drop": 0,
            "view": 0, "index": 0}
